@@ -188,6 +188,18 @@ CHECKS['C14'] = (
  '|x| <= 8 on the 2^-4 grid, for + - * neg abs pos | & <= format() from_format.',
  'Executions that raise are not judged; only the first violating event of an execution is reported; analyses that themselves '
  'raise ValueError on ordinary programs are counted, not judged.', '§5 C14')
+CHECKS['C08'] = (
+ 'bounded exhaustive enumeration of loop programs from four families x naming schemes x every strategy instance x site selection x '
+ 'all input lengths 0..9; metamorphic comparison f(args) vs T(f)(args) on the real interpreter',
+ 'Programs f(xs, ys, k): for loops over 14 + 12 header forms (plain, range, comprehension, zip / enumerate / enumerate(zip) with '
+ 'tuple, whole-tuple, discarded, nested and 3-way targets, static lengths) with all permutations up to a length bound of a '
+ '21-statement body pool (accumulate, reassign the target, mutate or rebind the iterated list, return early, nest a loop); while '
+ 'loops; any/all reductions in 21 syntactic positions x 8 comprehensions (elements that raise or have side effects); zip/enumerate '
+ 'comprehensions; crossed with four naming schemes colliding with generated temporaries and narrow ambient contexts.  Strategies: '
+ 'unroll_for times 1-4 PEEL/STRICT, split factors 1-4 + variable + free-variable factor PEEL/STRICT, unroll_while 1-3, elim_iter '
+ '(4 switch settings), fuse; where = None, each index, each cursor; list lengths 0-9.',
+ 'Judged only where the original returns; STRICT judged only where the length of every rewritten loop is divisible by the factor; '
+ 'non-termination decided by a CPU-time limit confirmed twice; mismatched-length zip inputs excluded (documented undefined).', '§5 C08')
 PENDING = {}
 
 def main():
